@@ -29,18 +29,25 @@ def _digests(cid: str, seed: int, n: int, hashseed: str, tier: str = "quick") ->
 
 
 def determinism(seed: int, n: int, ids: list[str] | None = None) -> int:
-    """Every case seed is run in 4 fresh interpreters (PYTHONHASHSEED 0,0,1,random):
-    case document digest, history digest and verdict must be identical."""
+    """Every case seed is run in 6 fresh interpreters (PYTHONHASHSEED 0,0,1,7,random,random):
+    case document digest, history digest and verdict must be identical. The thorough generator
+    (larger programs) is checked on a third of the sample as well."""
     ids = ids or claimed_ids()
     bad = 0
-    jobs = [(cid, hs) for cid in ids for hs in ("0", "0", "1", "random")]
+    hs_list = ("0", "0", "1", "7", "random", "random")
+    m = len(hs_list)
+    jobs = [(cid, hs, "quick", n) for cid in ids for hs in hs_list] + [(cid, hs, "thorough", max(3, n // 3)) for cid in ids for hs in hs_list]
     with ThreadPoolExecutor(max_workers=16) as ex:
-        outs = list(ex.map(lambda j: _digests(j[0], seed, n, j[1]), jobs))
+        outs = list(ex.map(lambda j: _digests(j[0], seed, j[3], j[1], j[2]), jobs))
+    half = len(ids) * m
     for k, cid in enumerate(ids):
-        a = outs[4 * k : 4 * k + 4]
+        a = outs[m * k : m * k + m]
+        t = outs[half + m * k : half + m * k + m]
         same = all(x == a[0] for x in a[1:]) and a[0] and not a[0][0].startswith("ERROR")
-        print(f"determinism {cid}: {'OK' if same else 'DIFFERENT'} ({len(a[0])} cases x 4 interpreters)")
+        same = same and all(x == t[0] for x in t[1:]) and t[0] and not t[0][0].startswith("ERROR")
+        print(f"determinism {cid}: {'OK' if same else 'DIFFERENT'} ({len(a[0])} quick + {len(t[0])} thorough-tier cases x {m} interpreters)")
         if not same:
+            a = a + t
             bad += 1
             for x in a:
                 print("   ", x[:3])
@@ -104,7 +111,7 @@ def main(target: str, seed: int, args) -> int:
     if os.environ.get("HGSIM_IDS"):
         ids = os.environ["HGSIM_IDS"].split(",")
     if target == "selftest-determinism":
-        return determinism(seed, args.digests or 25, ids)
+        return determinism(seed, args.digests or 60, ids)
     if target == "selftest-mutants":
         return mutants(ids, args.tier)
     print("unknown selftest")
